@@ -13,7 +13,7 @@ META = dict(
                 thorough='1-3 vibrational modes; ideal-gas and harmonic presets end to end'),
     outside_claim=['geometry-derived rotational temperatures / molar mass / composition (ASE Atoms + LAPACK eigen-solver) and invariance under rigid '
                    'motions - no encoding within reach; only the linear/nonlinear decision logic over symbolic bond angles is decided', 'Debye: derivative relations through the integrals (only integrands, '
-                   'outer algebra and algebraic relations are decided)', 'LSR electronic mode (needs reaction/surface objects; its additivity is '
+                   'outer algebra and algebraic relations are decided)', 'LSR with Reaction / StatMech objects as reference (float references are covered; its additivity is '
                    'covered through the stub-mode aggregation)', 'IEEE rounding'],
     stubs=['scipy.integrate.quad in DebyeVib -> opaque integral node keyed by the traced integrand',
            'mode models in the aggregation obligations -> stub modes returning values affine in the T,P they receive'],
@@ -22,8 +22,12 @@ META = dict(
 
 
 def call(obj, name, **kw):
-    """call a getter the way StatMech does (the library's own argument dispatch)"""
+    """call a getter the way StatMech does (the library's own argument dispatch); a StatMech species takes its conditions
+    as keyword arguments directly"""
     from pmutt import _pass_expected_arguments
+    from pmutt.statmech import StatMech
+    if isinstance(obj, StatMech):
+        return getattr(obj, name)(**kw)
     return _pass_expected_arguments(getattr(obj, name), **kw)
 
 
@@ -297,6 +301,32 @@ def h_elec(ctx):
     ctx.eq('degeneracy follows a re-assigned spin', mode.get_SoR(), log(ctx, 2 * (spin + 1) + 1))
 
 
+def h_lsr(ctx, as_elec):
+    """linear-scaling electronic energy: a temperature-independent energy, no entropy"""
+    from pmutt.statmech.lsr import LSR
+    from pmutt.statmech import StatMech
+    from pmutt import constants as c
+    T = ctx.real('T', 50, 5000)
+    slope, icpt = ctx.real('slope', 0, 2), ctx.real('intercept', -50, 50)
+    dE, Es, Eg = ctx.real('dE_ref', -100, 100), ctx.real('E_surf', -100, 100), ctx.real('E_gas', -100, 100)
+    lsr = LSR(slope=slope, intercept=icpt, reaction=dE, surf_species=Es, gas_species=Eg)
+    mode = StatMech(elec_model=lsr) if as_elec else lsr
+    U, H, S, Cv, Cp = _relations(ctx, mode, T, 1.0)
+    E = slope * dE + icpt + Es + Eg
+    # float references are stored as eV per molecule and read back through kB: the round trip kcal/mol -> eV -> kcal/mol is the
+    # factor k of the tabulated constants (1 to within their rounding)
+    k = c.convert_unit(initial='kcal/mol', final='eV/molecule') * c.R('kcal/mol/K') / c.kb('eV/K')
+    ctx.true('kcal/mol -> eV/molecule -> kcal/mol round trip of the constant tables is 1 within 2e-4', abs(k - 1) <= 2e-4)
+    ctx.eq('U x RT = slope x dE_ref + intercept + E_surf + E_gas   [kcal/mol]', U * T * c.R('kcal/mol/K'), (slope * dE + Es + Eg) * k + icpt,
+           rel=1e-9, tol=1e-9)
+    ctx.eq('S = 0', S, 0.0)
+    ctx.eq('Cv = 0', Cv, 0.0)
+    T2 = ctx.real('T2', 50, 5000)
+    ctx.eq('T x H/RT does not depend on T', T * H, T2 * call(mode, 'get_HoRT', T=T2, P=1.0))
+    ctx.eq('T x G/RT does not depend on T', T * call(mode, 'get_GoRT', T=T, P=1.0), T2 * call(mode, 'get_GoRT', T=T2, P=1.0))
+    ctx.eq('T x F/RT does not depend on T', T * call(mode, 'get_FoRT', T=T, P=1.0), T2 * call(mode, 'get_FoRT', T=T2, P=1.0))
+
+
 def h_empty(ctx):
     from pmutt.statmech import EmptyMode, ConstantMode
     from pmutt.statmech.nucl import EmptyNucl
@@ -518,6 +548,8 @@ def groups(tier):
         g.append(dict(name='RigidRotor/%s' % geo, harness=h_rotor, params=dict(geometry=geo)))
     g.append(dict(name='RigidRotor/point-groups', harness=h_point_groups))
     g.append(dict(name='GroundStateElec', harness=h_elec))
+    g.append(dict(name='LSR/mode', harness=h_lsr, params=dict(as_elec=False)))
+    g.append(dict(name='LSR/as-electronic-model-of-a-species', harness=h_lsr, params=dict(as_elec=True)))
     g.append(dict(name='Empty+Constant modes', harness=h_empty))
     for n_misc in (0, 1, 2):
         for refs in (False, True):
